@@ -87,3 +87,24 @@ Theorem C11_push_is_cons : forall s b, FlexV.StackGrow.KInv s -> b <> 0 ->
   FlexV.StackGrow.as_list (FlexV.StackGrow.push s b) = b :: FlexV.StackGrow.as_list s.
 Proof. exact FlexV.StackGrow.push_is_cons. Qed.
 Print Assumptions C11_push_is_cons.
+
+(** ... and a pop removes the head: yypop_buffer_state returns to the buffer pushed before *)
+Theorem C11_pop_is_tail : forall s, FlexV.StackGrow.KInv s -> FlexV.StackGrow.current s <> 0 ->
+  FlexV.StackGrow.as_list (FlexV.StackGrow.pop s) = tl (FlexV.StackGrow.as_list s).
+Proof. exact FlexV.StackGrow.pop_is_tail. Qed.
+Print Assumptions C11_pop_is_tail.
+
+(** ** in-memory buffers (coq/Unput.v) *)
+Require FlexV.Unput.
+
+(** yy_scan_bytes: the buffer is well formed and what will be scanned is exactly the bytes given *)
+Theorem C11_scan_bytes_holds_its_bytes : forall data,
+  FlexV.Unput.UInv (FlexV.Unput.scan_bytes data) /\ FlexV.Unput.u_unread (FlexV.Unput.scan_bytes data) = data.
+Proof. exact FlexV.Unput.scan_bytes_inv. Qed.
+Print Assumptions C11_scan_bytes_holds_its_bytes.
+
+(** yy_scan_buffer accepts an array only if its last two bytes are end-of-buffer bytes (NULL otherwise) *)
+Theorem C11_scan_buffer_needs_two_sentinels : forall mem b, FlexV.Unput.scan_buffer mem = Some b ->
+  2 <= length mem /\ nth (length mem - 2) mem 1%N = FlexV.BufLayout.EOB /\ nth (length mem - 1) mem 1%N = FlexV.BufLayout.EOB /\ FlexV.Unput.UInv b.
+Proof. exact FlexV.Unput.scan_buffer_refuses. Qed.
+Print Assumptions C11_scan_buffer_needs_two_sentinels.
